@@ -669,6 +669,15 @@ fn calendar_diffs(rep: &mut Report, t: &mut Tally) {
         let inc = *r.pick(&[1u32, 2, 2, 3, 4, 5, 6, 7, 10, 12, 25]);
         let m = *r.pick(&ALL_MODES);
         let since = r.bool();
+        // a third of the time as year-months: both ends snapped to the first of their month, units month / year
+        let as_ym = r.chance(1, 3) && smallest != Unit::Week && largest != Unit::Week;
+        let (day0, day1) = if as_ym {
+            let (ya, ma, _) = civil_from_days(day0);
+            let (yb, mb, _) = civil_from_days(day1);
+            (days_from_civil(ya, ma, 1), days_from_civil(yb, mb, 1))
+        } else {
+            (day0, day1)
+        };
         let (Out::Ok(a), Out::Ok(b)) = (call(|| pdate_from_days(day0)), call(|| pdate_from_days(day1))) else { continue };
         // since(): the negated difference rounded with the mirrored mode, negated again
         let delta = (day1 - day0) as f64;
@@ -688,8 +697,25 @@ fn calendar_diffs(rep: &mut Report, t: &mut Tally) {
             round_relative(day0, &v, largest, smallest, inc as i128, m)
         };
         let st = diff_settings(Some(largest), Some(smallest), Some(m.to_lib()), Some(inc));
-        let opname = if since { "PlainDate::since" } else { "PlainDate::until" };
-        let got = call(|| if since { a.since(&b, st) } else { a.until(&b, st) }).map(|d| dur_fields(&d));
+        let opname = match (as_ym, since) {
+            (false, true) => "PlainDate::since",
+            (false, false) => "PlainDate::until",
+            (true, true) => "PlainYearMonth::since",
+            (true, false) => "PlainYearMonth::until",
+        };
+        let got = if as_ym {
+            call(|| {
+                let (x, y) = (a.to_plain_year_month()?, b.to_plain_year_month()?);
+                if since {
+                    x.since(&y, st)
+                } else {
+                    x.until(&y, st)
+                }
+            })
+        } else {
+            call(|| if since { a.since(&b, st) } else { a.until(&b, st) })
+        }
+        .map(|d| dur_fields(&d));
         t.evals += 1;
         let (ya, ma, da) = civil_from_days(day0);
         let (yb, mb, db) = civil_from_days(day1);
